@@ -120,6 +120,17 @@ CHECKS = [
              "the dumping events.",
      "note": "Trusted: the recorders (class-level patches of non-Initializer classes only; private read Scheduler._last_returned_event), "
              "dill, blake2 digests of float.hex state. Quick tier: 36 cases x 3-6 dumps; resumed runs are compared for at most 400 records."},
+    {"id": "C20", "engine": "hypothesis-runner", "design_ref": "DESIGN.md §3 C20",
+     "technique": "differential property-based testing between processes with harness-induced schedules: generated (configuration, cores, per-handler answer-delay tables); multi-process vs single-process mediator under identical per-handler random streams; CPU-progress liveness criterion",
+     "text": "Generated configurations without randomness in the out-state (shipped wirings with the invertible pair handler; N=2..6; "
+             "composite dipoles; hard-disk dipole), 2-6 cores and drawn per-handler delays that permute the arrival order of candidate "
+             "times: the multi-process run must commit exactly the single-process sequence (handler, time bits, state digest) and write "
+             "the same samples, end with the end-of-run event, leave no worker alive and never stop making progress.",
+     "note": "The harness does not own the OS scheduler: schedules are those induced by delays x cores (arrival orders are recorded; a failure "
+             "is real when it occurs, its replay re-draws the same delays but the OS may deviate). Liveness is decided by 15 s without "
+             "CPU time in the process group, a slow run is inconclusive. Per-handler streams are harness-defined. Private reads: "
+             "Mediator._event_handlers_list/_state_handler/_scheduler/_input_output_handler, Scheduler._last_returned_event, "
+             "MultiProcessMediator._os_processes."},
 ]
 
 _ALL = ["C%02d" % i for i in range(1, 21)]
